@@ -23,7 +23,10 @@ HOSTS = {
     "all_const": "r:a=vi3;r:b=vX7;r:c=vC[61];a:7=vi42",
     "decline_apply": "r:a=vX5;r:b=vX7;r:c=vX5",
 }
-INPUTS = ["U", "(L (P na i1) (P nc (L i2 i3)))", "(P nb i5)", "i7"]
+INPUTS = ["U", "(L (P na i1) (P nc (L i2 i3)))", "(P nb i5)", "i7",
+          # lists mixing unit items, plain items and keyed pairs (what the input defines is looked up past them)
+          "(L U (P na i4) U (P nb i5) (P nc i6))", "(L (P nb i2) U)", "(L i9 U (P nc i1) (P na i2))", "(L U U (P na i3))"]
+KEYED_WITH_UNITS = INPUTS[4:]
 
 
 def operands():
@@ -85,6 +88,7 @@ def corpus(tier, rng):
                 inp = rng.choice(INPUTS) if hname != "none" else "U"
                 cases.append(X.Case(e, "min", inp, host, "c17:" + hname))
             cases.append(X.Case(e, "min", INPUTS[1], HOSTS["all"], "c17:input"))
+            cases.append(X.Case(e, "min", rng.choice(KEYED_WITH_UNITS), HOSTS["all"], "c17:input-units"))
     # random programs under every host
     g = X.Gen(rng)
     for _ in range(2500 if tier == "quick" else 60000):
